@@ -171,3 +171,16 @@ for _k, _v in _TECH_ADD.items():
 _FRONT = _FRONT.replace("present the same program to the rules;", "present the same program to the rules (also: single-use locals forward-substituted, aliases of attribute paths expanded under a package-wide may-write summary, comprehensions and loops over constant tuples unrolled);")
 for _k in CLAIMED:
     CLAIMED[_k]["note"] = CLAIMED[_k]["note"] + _FRONT
+
+# ---- additions after seeding round 8
+_EXTRA3 = {
+    "C07": " A prefix slice `candles[:i]` used as a loop / comprehension iterable on the calculation path counts as a whole-history walk (R-HISTORY).",
+    "C08": " The candlestick-type object, which a Hexital shares over all its managers, keeps no state between conversion passes (R-STATE).",
+    "C09": " Also: a helper reading used in arithmetic under the presence test of a sibling helper of the same kind has periods provably <= the sibling's, given the ordering that evaluating `_validate_fields` on sample values establishes (R-ORDERED); every path that returns a reading writes the managed series the other paths write, unless a value-free condition explains it (R-GAP, managed series).",
+    "C10": " A field of an identity (histogram beside MACD and signal) may be None next to set fields only under warm-up facts, never under a value / truthiness condition (R-AFFINE); round_values has no exact-type test, so float / dict subclasses are rounded too (R-ROUND).",
+    "C11": " With gap filling the inserted buckets belong to the raw series the conversion starts from: the fill rules (R-FILL, flat at the previous bucket's RAW close) are part of this check.",
+    "C12": " Every timeframe manager a Hexital creates for a member gets the Hexital-level fill setting (R-BIND, decided by evaluating _validate_indicators on model members).",
+    "C20": " reading_count's contract is evaluated on dotted names into dict readings whose field warms up later than the parent.",
+}
+for _k, _v in _EXTRA3.items():
+    CLAIMED[_k]["text"] = CLAIMED[_k]["text"] + _v
